@@ -106,15 +106,16 @@ def inject(rng, text):
     if kind == "redecl_as_const" and wires:
         w = rng.choice(wires)
         return add("const %s = 3;" % w), "RedeclaredWire", w, kind
-    if kind == "redecl_bank_signal" and real_out:
+    rbanks = [b for b in banks if re.findall(r"(\w+) : \d+ =", b.group(3))]
+    if kind == "redecl_bank_signal" and real_out and rbanks:
         o = rng.choice(real_out)
         w = rng.choice([o, o[0].lower() + o[1:], "stall_" + o[0], "bubble_" + o[0]]) if False else None
-        b = rng.choice(banks)
+        b = rng.choice(rbanks)
         r = re.findall(r"(\w+) : \d+ =", b.group(3))[0]
         w = rng.choice([b.group(2) + "_" + r, b.group(1) + "_" + r, "stall_" + b.group(2), "bubble_" + b.group(2)])
         return add("wire %s : %d;" % (w, rng.choice([1, 8]))), "RedeclaredWire", w, kind
-    if kind == "dup_register" and banks:
-        b = rng.choice(banks)
+    if kind == "dup_register" and rbanks:
+        b = rng.choice(rbanks)
         r = re.findall(r"(\w+) : \d+ =", b.group(3))[0]
         old = "register %s%s { %s }" % (b.group(1), b.group(2), b.group(3))
         new = "register %s%s { %s %s : 8 = 0; }" % (b.group(1), b.group(2), b.group(3), r)
